@@ -173,6 +173,9 @@ func (s *Solver) solve(fv *FuncVC, o *Obl, eng *Engine) *SolveResult {
 	if fv.Contract != nil && fv.Contract.Timeout > 0 && fv.Contract.Timeout > timeout {
 		timeout = fv.Contract.Timeout
 	}
+	if o.Cover && timeout > 10 {
+		timeout = 10 // vacuity guards are best effort
+	}
 	s.sem <- struct{}{}
 	st, out, ms := runSolver(context.Background(), solvers[0], f, s.firstS)
 	<-s.sem
